@@ -44,6 +44,7 @@ type Engine struct {
 	overlay    map[string][]byte
 	verbose    bool
 	noAccel    bool
+	noIfConv   bool
 
 	mu          sync.Mutex
 	bounds      map[string]int64
@@ -338,7 +339,7 @@ type checkResult struct {
 
 func (e *Engine) newExec(tf *TF, solver *Solver, h *ssa.Function, prefix []int) *Exec {
 	return &Exec{tf: tf, eng: e, prog: e.prog, solver: solver, harness: h.Name(), harnessPkg: h.Pkg, harnessFn: h, choiceVals: map[string]uint64{},
-		facts: map[int]bool{}, prefix: prefix, globals: map[*ssa.Global]Node{}, readMemo: map[[2]int]*Term{},
+		facts: map[int]bool{}, bounds: map[int]rng{}, prefix: prefix, globals: map[*ssa.Global]Node{}, readMemo: map[[2]int]*Term{},
 		labelSeq: map[string]int{}, reached: map[string]bool{}, inits: map[*ssa.Package]bool{},
 		unwind: e.unwind, intrUsed: map[string]bool{}, funcsRun: map[*ssa.Function]bool{}, sentinels: map[string]Value{},
 		bypass: map[*ssa.Function]bool{}}
@@ -580,7 +581,7 @@ func (e *Engine) writeEvidence(prop string, hs []*ssa.Function, wall time.Durati
 			"unknown": st.UnknownN, "cache_hits": st.CacheHits, "portfolio_fallbacks": st.Fallbacks, "decided_by_fallback": st.SolversUsed},
 		"solver_time_s":   st.SolverTime.Seconds(),
 		"max_query_s":     st.MaxQuery.Seconds(),
-		"solvers":         []string{"z3 4.8.12 (incremental, push/pop)", "portfolio on unknown: z3 4.8.12 fresh, z3-new 5.1.0, cvc5 1.0.x --solve-bv-as-int=sum"},
+		"solvers":         []string{"z3 4.8.12 (one process per worker, (reset) + full formula per query)", "portfolio on unknown: z3 4.8.12 fresh, z3-new 5.1.0, cvc5 1.0.x --solve-bv-as-int=sum"},
 		"witnesses":       sortedStrings(e.reached),
 		"inconclusive":    inc,
 		"exhaustive":      false,
